@@ -85,6 +85,14 @@ CLAIMED = {
             "Decides: murmur2 computes, modulo 2^32, exactly the Java terms with the Java constants for every tail length; every value "
             "shifted right or returned is within [0,2^32); the keyed route is all_partitions[(hash & 0x7fffffff) % n] with no influence of "
             "availability; all_partitions is ordered by id; unkeyed records prefer available partitions. No concrete key is hashed."),
+    "C11": ("static evaluation of the declarative protocol table from the AST, partial (symbolic) evaluation of every builder per selectable "
+            "version, dominance rules on Request.prepare, schema-evolution and reference-table comparison, structural agreement of "
+            "encode/decode of the primitive codecs",
+            "Decides for all 95 selectable (builder, version) pairs: key/version pairing of request and reply schema, flexible-header "
+            "consistency, that prepare() only builds a struct inside the broker's range (highest first), constructor arity and field "
+            "alignment per version, no silent drop of a parameter (named ones never), type stability across versions, wire signatures "
+            "against the reference table, and that each primitive writes what it reads. Value-level round-trips and varint arithmetic "
+            "are not decided."),
 }
 
 NA = {
